@@ -5,6 +5,8 @@ import HcipyVerif.Lemmas.AperturePolar
 import HcipyVerif.Lemmas.AperturePolarInexact
 import HcipyVerif.Lemmas.ApertureStat
 import HcipyVerif.Lemmas.AperturePupil
+import HcipyVerif.Model.ApertureHistory
+import HcipyVerif.Model.ApertureTelescopes
 
 /-!
 # C12 — Apertures depend only on the physical points, not on the grid representation
@@ -761,6 +763,116 @@ example : ∀ t ∈ [(1 : Rat), 1/2, 0], 0 ≤ t ∧ t ≤ 1 := by
   intro t ht
   simp at ht
   rcases ht with rfl | rfl | rfl <;> norm_num
+
+/-! ## concrete segment counts (Model/ApertureTelescopes.lean; finite tables fixed by the makers' constants) -/
+
+/-- **LUVOIR A keeps 120 of the 127 lattice sites** (6 rings; the outer clip at `0.98·D/2` drops the six corners,
+the inner circle the central segment) -/
+theorem luvoir_a_keeps_120_segments : luvoirAPos.positions.length = 120 := by decide +kernel
+
+/-- **LUVOIR B keeps 55 of the 61 lattice sites** (4 rings; the clip at `0.9·D/2` drops the six corners) -/
+theorem luvoir_b_keeps_55_segments : luvoirBPos.positions.length = 55 := by decide +kernel
+
+/-- the concrete configurations are instances of the general pupil model: the positions are those of the `HexCfg`
+with the same lattice and criteria, whatever segment shape, transmissions and spiders it has -/
+theorem poscfg_positions_eq_hexcfg (p : PosCfg) (c : HexCfg) (hr : c.rings = p.rings) (hp : c.pitch = p.pitch)
+    (ha : c.ap = p.ap) (hs : c.sels = p.sels) : c.positions = p.positions := by
+  simp [HexCfg.positions, PosCfg.positions, hr, hp, ha, hs]
+
+/-! ## history on one grid object: in-place operations between two evaluations (Model/ApertureHistory.lean) -/
+
+/-- **Every in-place operation moves the physical points by the same geometric map, whatever the representation**:
+after `scale / shift / rotate / reverse / weights = …` the points of the object are the transformed points (in
+reversed order for `reverse`), on a Cartesian and on a polar object alike. -/
+theorem inplace_op_moves_points {o : IOp} {g g' : GObj} (h : o.apply g = some g') :
+    g'.points = o.reorder (g.points.map o.onPt) := by
+  cases o <;> cases g <;> simp [IOp.apply] at h
+  all_goals try subst h
+  all_goals try simp [GObj.points, IOp.reorder, IOp.onPt, List.map_reverse]
+  · rename_i sx sy qs
+    obtain ⟨rfl, rfl⟩ := h
+    simp only [GObj.points, IOp.reorder, IOp.onPt, List.map_map]
+    apply List.map_congr_left
+    intro q _
+    simp only [Function.comp, toCart, scaleRad, scalePt]
+    ext <;> simp <;> ring
+  · rename_i c s qs
+    intro r c0 s0 _
+    simp only [toCart, rotDir, rotPt, Prod.mk.injEq]
+    constructor <;> ring
+
+/-- **After any history the field is the point predicate at the CURRENT points** (for a polar object: wherever its
+radius shortcuts agree with the Cartesian test, `polar_path_eq_inside_float`). -/
+theorem inplace_history_values (s : Shape) (ops : List IOp) {g g' : GObj} (_h : runOps ops g = some g')
+    (ha : g'.agree s = true) : evalObj s g' = g'.points.map (val s) := by
+  cases g' with
+  | cart pts => exact evalPts_eq_val s pts
+  | polar qs =>
+    simp only [GObj.agree, List.all_eq_true] at ha
+    exact evalPolar_eq_val_of_agree s qs ha
+
+/-- **The history of the object does not matter**: two objects with the same current points — reached by whatever
+in-place operations from whatever grids, Cartesian or polar, in particular a used object and a fresh one
+(`ops' = []`) — get the same field. -/
+theorem inplace_history_independent (s : Shape) {ops ops' : List IOp} {g0 g0' g g' : GObj}
+    (h : runOps ops g0 = some g) (h' : runOps ops' g0' = some g') (hp : g.points = g'.points)
+    (ha : g.agree s = true) (ha' : g'.agree s = true) : evalObj s g = evalObj s g' := by
+  rw [inplace_history_values s ops h ha, inplace_history_values s ops' h' ha', hp]
+
+/-- **`Grid.reverse()` between two evaluations reverses the field**: the value at point `i` afterwards is the value
+that belonged to point `N-1-i` before — the same physical position. -/
+theorem inplace_reverse_values (s : Shape) (g : GObj) (ha : g.agree s = true) :
+    evalAfter s [.reverse] g = some (evalObj s g).reverse := by
+  cases g with
+  | cart pts =>
+    simp [evalAfter, runOps, IOp.apply, evalObj, evalPts_eq_val, List.map_reverse]
+  | polar qs =>
+    simp only [GObj.agree, List.all_eq_true] at ha
+    have hr : ∀ q ∈ qs.reverse, diskAgree s q = true := fun q hq => ha q (List.mem_reverse.mp hq)
+    simp [evalAfter, runOps, IOp.apply, evalObj, evalPolar_eq_val_of_agree s qs ha,
+      evalPolar_eq_val_of_agree s qs.reverse hr, List.map_reverse]
+
+/-- **Assigning the weights between two evaluations changes nothing.** -/
+theorem inplace_weights_irrelevant (s : Shape) (ops : List IOp) (g : GObj) :
+    evalAfter s (.weights :: ops) g = evalAfter s ops g := by
+  simp [evalAfter, runOps, IOp.apply]
+
+/-- the history composes: evaluating after `ops ++ ops'` is evaluating after `ops'` on the object `ops` produced -/
+theorem inplace_history_append (s : Shape) (ops ops' : List IOp) (g : GObj) :
+    evalAfter s (ops ++ ops') g = (runOps ops g).bind (evalAfter s ops') := by
+  induction ops generalizing g with
+  | nil => simp [evalAfter, runOps]
+  | cons o os ih =>
+    cases ho : o.apply g with
+    | none => simp [evalAfter, runOps, ho]
+    | some g1 =>
+      have := ih g1
+      simp only [evalAfter] at this
+      simp [evalAfter, runOps, ho, this]
+
+/-- which histories are defined: on a Cartesian object every one -/
+theorem inplace_history_defined_cartesian (ops : List IOp) (pts : List Pt) :
+    ∃ pts', runOps ops (.cart pts) = some (.cart pts') ∧ pts'.length = pts.length := by
+  induction ops generalizing pts with
+  | nil => exact ⟨pts, rfl, rfl⟩
+  | cons o os ih =>
+    cases o <;> simp only [runOps, IOp.apply, Option.bind_some]
+    · obtain ⟨p, hp, hl⟩ := ih (pts.map (scalePt _ _)); exact ⟨p, hp, by simpa using hl⟩
+    · obtain ⟨p, hp, hl⟩ := ih (pts.map (movePt _ _)); exact ⟨p, hp, by simpa using hl⟩
+    · obtain ⟨p, hp, hl⟩ := ih (pts.map (rotPt _ _)); exact ⟨p, hp, by simpa using hl⟩
+    · obtain ⟨p, hp, hl⟩ := ih pts.reverse; exact ⟨p, hp, by simpa using hl⟩
+    · exact ih pts
+
+example : runOps [.scale 2 2, .rot (3/5) (4/5), .reverse, .weights] (.polar [(1, 1, 0), (2, 0, 1)])
+    = some (.polar [(4, -4/5, 3/5), (2, 3/5, 4/5)]) := by decide +kernel
+
+example : (GObj.polar [((2 : Rat), (3/5 : Rat), (4/5 + 1/1000 : Rat)), (1/2, 1, 1/1000)]).agree (.sub (.disk 1) (.disk (1/4))) = true := by
+  decide +kernel
+
+example : (IOp.scale 2 3).apply (.polar [(1, 1, 0)]) = none := by decide +kernel
+
+example : ∃ c : HexCfg, c.rings = luvoirAPos.rings ∧ c.pitch = luvoirAPos.pitch ∧ c.ap = luvoirAPos.ap ∧ c.sels = luvoirAPos.sels :=
+  ⟨⟨luvoirAPos.rings, luvoirAPos.pitch, luvoirAPos.ap, luvoirAPos.sels, .disk 1, [], none, [], 0, false⟩, rfl, rfl, rfl, rfl⟩
 
 example : ∃ f, supersampled (.circle 1 0 0) 2 2 [0, 1] [0, 1, 2] = .ok f :=
   (supersampled_isOk_iff _ 2 2 [0, 1] [0, 1, 2]).mpr (by simp)
